@@ -176,17 +176,20 @@ class World(_NodeBase):
         raise ValueError("The target node must be in the same scene-graph.")
 
 
+class Material:
+    """raysect's base Material: a compiled class without a __dict__ (assigning an unknown attribute raises AttributeError)"""
+    __slots__ = ('primitives',)
+
+
 class Primitive(Node):
     def __init__(self, parent=None, transform=None, material=None, name=None):
         Node.__init__(self, parent, transform, name)
-        self.material = material
-
-
-class Material:
-    pass
+        self.material = material if material is not None else Material()
 
 
 class InhomogeneousVolumeEmitter(Material):
+    __slots__ = ('__dict__',)
+
     def __init__(self, integrator=None):
         self.integrator = integrator
 
